@@ -18,11 +18,14 @@ pub mod fqk;
 pub mod fak;
 pub mod libk;
 pub mod c12;
+pub mod misc;
+pub mod c18;
 
 #[cfg(not(kani))]
 pub fn registry() -> Vec<(&'static str, fn(&mut nd::TapeNd))> {
     let mut v = Vec::new();
     v.extend(c09::registry());
+    v.extend(c09::registry2());
     v.extend(c10::registry());
     v.extend(c20::registry());
     v.extend(c13::registry());
@@ -34,5 +37,7 @@ pub fn registry() -> Vec<(&'static str, fn(&mut nd::TapeNd))> {
     v.extend(fqk::registry2());
     v.extend(libk::registry());
     v.extend(c12::registry());
+    v.extend(misc::registry());
+    v.extend(c18::registry());
     v
 }
